@@ -251,3 +251,26 @@ T("c11-drain-loop", ["C11", "C20"], RP,
 
             break
 """)
+T("c17-proof-no-lambda", ["C17"], MT, """    if index_of_interest >= merkle_node.children[1].index:
+        other, recurse_into = merkle_node.children
+        reconstruct = lambda ot, rec: (ot, rec) # noqa
+    else:
+        recurse_into, other = merkle_node.children
+        reconstruct = lambda ot, rec: (rec, ot) # noqa
+
+    simplified_other = MerkleNode(other.index, (), other.hash())
+    recursion_result = get_proof(recurse_into, index_of_interest)
+
+    return MerkleNode(merkle_node.index, reconstruct(simplified_other, recursion_result))  # type: ignore""",
+"""    go_right = index_of_interest >= merkle_node.children[1].index
+    if go_right:
+        other, recurse_into = merkle_node.children
+    else:
+        recurse_into, other = merkle_node.children
+
+    simplified_other = MerkleNode(other.index, (), other.hash())
+    recursion_result = get_proof(recurse_into, index_of_interest)
+
+    if go_right:
+        return MerkleNode(merkle_node.index, (simplified_other, recursion_result))
+    return MerkleNode(merkle_node.index, (recursion_result, simplified_other))""")
